@@ -13,7 +13,7 @@ use crate::tape::Tape;
 
 pub const RULE: &str = "arr_to_u64 / arr_to_i64 / arr_to_f64 on byte slices of length 0..16 compared with from_be_bytes-based reference decoders \
 (all slices of length <= 3, a bit lattice for lengths 3..16, proptest-random slices with uniform length), and u64/i64/f64 values \
-(boundary sets + random) written as one-element documents through TagWriter, the payload located with the reference header parser: minimal 1/2/4/8 width, \
+(boundary sets + random) written as one-element documents through TagWriter (default options and every explicit size-field width 1-8: the size field has exactly that width, the payload is the same), the payload located with the reference header parser: minimal 1/2/4/8 width, \
 8-byte floats, and library decoder == reference decoder == original value (floats by bits). Non-trivial: slice length 0, 9 or more, sign/width boundary, or any multi-byte slice; distinct by slice / value.";
 
 pub const ASSUMPTIONS: &[&str] = &["f32 payloads are widened with Rust's `as f64` (what the documentation of arr_to_f64 states); compared bit-for-bit"];
